@@ -204,6 +204,10 @@ def binop(it, op, a, b, inplace=False):
     raise Unsupported(f"binop {k.__name__}")
 
 
+def _is_private_sentinel(v):
+    return isinstance(v, Obj) and getattr(v.cls, "name", "") == "NotSet"
+
+
 def _identity_eq(it, a, b):
     """`is` on two values -> python bool or z3 Bool"""
     sa = isinstance(a, Opaque) and a.kind == "symref"
@@ -217,6 +221,9 @@ def _identity_eq(it, a, b):
         if isinstance(other, SV) and other.kind == "val":
             return (a if sa else b).attrs["term"] == other.t
         return False
+    if _is_private_sentinel(a) or _is_private_sentinel(b):
+        # A-sentinel: a library-private sentinel object (NotSet instance) is never a user element
+        return a is b
     if isinstance(a, SV) or isinstance(b, SV):
         if isinstance(a, SV) and isinstance(b, SV) and a.kind == b.kind:
             return a.t == b.t
@@ -243,6 +250,8 @@ def _eq(it, a, b):
     """`==` -> python bool or z3 Bool"""
     if (isinstance(a, Opaque) and a.kind == "symref") or (isinstance(b, Opaque) and b.kind == "symref"):
         return _identity_eq(it, a, b)  # disposables/observers do not define __eq__
+    if _is_private_sentinel(a) or _is_private_sentinel(b):
+        return a is b  # NotSet.__eq__ is identity; A-sentinel: user values do not claim equality with it
     if isinstance(a, SV) or isinstance(b, SV):
         ka = a.kind if isinstance(a, SV) else None
         kb = b.kind if isinstance(b, SV) else None
